@@ -45,6 +45,9 @@ func (c *countingSvc) take() map[string]int {
 
 type anyServer interface{}
 
+// svcObj is the handler object registered for one service: methods must be invoked with their own.
+type svcObj struct{ name string }
+
 func countingDesc(cs *countingSvc, svcName string, unary, streams []string) *grpc.ServiceDesc {
 	sd := &grpc.ServiceDesc{ServiceName: svcName, HandlerType: (*anyServer)(nil)}
 	for _, m := range unary {
@@ -53,6 +56,10 @@ func countingDesc(cs *countingSvc, svcName string, unary, streams []string) *grp
 			if err := dec(new(emptypb.Empty)); err != nil {
 				return nil, err
 			}
+			if o, ok := srv.(*svcObj); !ok || o.name != svcName {
+				cs.hit("(handler object of another registration) " + full)
+				return &emptypb.Empty{}, nil
+			}
 			cs.hit(full)
 			return &emptypb.Empty{}, nil
 		}})
@@ -60,6 +67,10 @@ func countingDesc(cs *countingSvc, svcName string, unary, streams []string) *grp
 	for i, m := range streams {
 		full := "/" + svcName + "/" + m
 		sd.Streams = append(sd.Streams, grpc.StreamDesc{StreamName: m, ClientStreams: i%2 == 0, ServerStreams: true, Handler: func(srv interface{}, st grpc.ServerStream) error {
+			if o, ok := srv.(*svcObj); !ok || o.name != svcName {
+				cs.hit("(handler object of another registration) " + full)
+				return nil
+			}
 			cs.hit(full)
 			return nil
 		}})
@@ -146,7 +157,7 @@ func genName(r *rand.Rand, rs *regSet, httpSafe bool) string {
 	case c == 7 && !httpSafe:
 		return pick(r, "", "/", "//", "foo", "/foo", "foo/", "/foo/", "///", reg+"/", "/"+reg, reg[:strings.LastIndex(reg, "/")]+"//"+reg[strings.LastIndex(reg, "/")+1:], "/./"+reg[1:], "/a/../"+reg[1:], " ", "\x00", "/\x00/\x00")
 	case c == 7:
-		return pick(r, "/foo", "/foo/bar", "/foo/bar/baz", "/pkg.Svc", "/Get", "/pkg.Svc/Get?x=1", "/pkg.Svc/Get#frag", "/pkg.Svc/Ge t", "/pkg.Svc/Gét", "/pkg.Svc/Get%2F", "/pkg.Svc/Get;v=1", "/pkg.Svc:Get")
+		return pick(r, "", "/", "foo", "/foo", "/foo/bar", "/foo/bar/baz", "/pkg.Svc", "/Get", "/pkg.Svc/Get?x=1", "/pkg.Svc/Get#frag", "/pkg.Svc/Ge t", "/pkg.Svc/Gét", "/pkg.Svc/Get%2F", "/pkg.Svc/Get;v=1", "/pkg.Svc:Get")
 	case c == 9:
 		// percent-escapes that would decode to a registered name must not be decoded
 		j := 1 + r.Intn(len(reg)-1)
@@ -299,7 +310,7 @@ func checkC12(e *core.Env) {
 		rs := genRegSet(r)
 		ch := &inprocgrpc.Channel{}
 		for _, d := range rs.descs {
-			ch.RegisterService(d, struct{}{})
+			ch.RegisterService(d, &svcObj{d.ServiceName})
 		}
 		rs.registerRefused(ch)
 		for k := 0; k < 20; k++ {
@@ -332,7 +343,7 @@ func checkC12(e *core.Env) {
 		if useMux {
 			reg := grpchan.HandlerMap{}
 			for _, d := range rs.descs {
-				reg.RegisterService(d, struct{}{})
+				reg.RegisterService(d, &svcObj{d.ServiceName})
 			}
 			rs.registerRefused(reg)
 			mux := http.NewServeMux()
@@ -345,7 +356,7 @@ func checkC12(e *core.Env) {
 			s := httpgrpc.NewServer(httpgrpc.WithBasePath(base))
 			if pan := guard(func() {
 				for _, d := range rs.descs {
-					s.RegisterService(d, struct{}{})
+					s.RegisterService(d, &svcObj{d.ServiceName})
 				}
 			}); pan != "" {
 				e.Violate("http-server/register-panic", fmt.Sprintf("RegisterService with base path %q panicked: %s", base, trunc(pan, 300)), base)
